@@ -37,7 +37,20 @@ def tlc_identity(u, repaired=True):
         cands.append({"m": "pair", "i": v[1], "j": v[2]})
     for v in vlib.parse_printed(r.printed, "UNDEF"):
         cands.append({"m": "undef", "i": v[1]})
+    if repaired:
+        # sensitivity of the universe: every plausible other encoding must be told apart by some pair
+        tells = {}
+        for v in vlib.parse_printed(r.printed, "TELLS"):
+            tells.setdefault(v[1], []).append((v[2], v[3]))
+        r.tells = {k: len(x) for k, x in tells.items()}
+        blind = [x for x in VARIANTS if x not in tells]
+        if blind:
+            raise Infra("the value universe cannot tell the current UUID encoding from the variant(s) %s (Identity.tla Tells)" % blind)
     return r, cands
+
+
+VARIANTS = ["pred-varint-unpadded", "pred-decimal-nanos", "literal-without-type", "object-untagged-predicate",
+            "int64-varint-cut-to-8", "node-with-separator"]
 
 
 # symbols of ValueText.tla -> concrete text
@@ -520,6 +533,7 @@ def check(prop):
     })
     if prop == "C06":
         cov.update({
+            "universe_pairs_that_tell_a_variant_encoding_from_the_current_one": getattr(r, "tells", {}),
             "exhaustive": True,
             "model": "Identity.tla: Injective/Functional/Total evaluated by TLC for all %d same-kind pairs of the %d-value near-miss "
                      "universe; the %d candidates and all pairs were then executed on the real code" % (
